@@ -1032,7 +1032,6 @@ fn badutf8_cases(ctx: &mut Ctx, ps: &mut Passes) {
         ("\"t e\"", x("t e")),
         ("\"\u{FFFD}\"", x("\u{FFFD}")),
         ("\"t\u{FFFD}e\"", x("t\u{FFFD}e")),
-        ("start*\u{FFFD}", w("start*\u{FFFD}")),
         ("NOT \"\u{FFFD}\"", C::Not(Box::new(x("\u{FFFD}")))),
         ("*", C::True),
     ];
